@@ -37,3 +37,8 @@ package util
 //@ func TimeRange.Contains
 //@   ensures result == (t.Min <= min && t.Max >= max)
 //@   assigns nothing
+
+//@ func Bytes2str
+//@   trusted unsafe re-view of the same bytes as a string
+//@   ensures len(result) == len(b)
+//@   assigns nothing
